@@ -1,0 +1,10 @@
+//go:build verif
+
+// Round 6, area K: stringy.NanoSecondToHuman (nsqadmin's latency columns): total, nothing written. Comment-only file.
+
+package stringy
+
+//@ func NanoSecondToHuman(v float64) string
+//@   props C18
+//@   modifies
+//@   nochan
